@@ -8,6 +8,25 @@ HERE = os.path.dirname(os.path.dirname(os.path.abspath(__file__)))
 
 # pid -> (category, technique, level text, level note, design ref)
 CHECKS = {
+    "C19": (
+        "exploration",
+        "Hypothesis: generated batching/caching configurations x request schedules (arrival offsets, model latencies) on a virtual-time asyncio loop; oracle = each result equals the fake model's own vector, order preserved, no deadlock; enumerated burst grid",
+        "The real BasicEmbeddingsIndex (batching, cache decorator with every store/key generator) is driven with a deterministic fake embedding model on a virtual-clock "
+        "event loop owned by the harness, so arrival times, batch hold times and model latencies are part of the generated case; every returned vector must equal "
+        "model(text) in input order, stored item embeddings and search ranking must be consistent, every request must complete (deadlock/livelock/hang are violations) "
+        "and nothing may stay pending. A 1465-case burst grid around the batch size is enumerated.",
+        "Only asyncio interleavings at the await points of this code path are explored (no OS threads); a raising model is out of scope.",
+        "DESIGN.md 4/C19",
+    ),
+    "C20": (
+        "exploration",
+        "Hypothesis: grammar-based generator of config id strings (separators, dot sequences, encodings, look-alikes, absolute paths) and generated request histories over several thread ids against the real FastAPI app; path-confinement predicate + dict model of threads",
+        "Requests are sent through TestClient to the real api.app with LLMRails stubbed and RailsConfig.from_path wrapped: every path the server tries to load must "
+        "resolve to the root or below (an audit hook also watches file access outside the root), valid ids load exactly root/<id>, everything else gets the fixed "
+        "'could not load' reply; for thread histories a dict model predicts the exact message list the rails receive and what is stored afterwards, for every step.",
+        "The empty/absent id and '.' are checked for confinement only; requests with `context` use the weaker 'stored = received + reply' check; symlinks inside the root are not created.",
+        "DESIGN.md 4/C20",
+    ),
     "C13": (
         "exploration",
         "Hypothesis: layout-preserving edits of every shipped .co file and of generated v1/v2 programs (metamorphic parse equality); character mutations, truncations and token soups loaded through RailsConfig.from_path (exception-type oracle + hang watchdog), bucketed by root cause",
